@@ -240,7 +240,13 @@ type c03env struct {
 	lvlS  map[string]bool // writer id -> LevelSettable
 	seq   int
 	file6 *os.File
+	bare  []*bareW
 }
+
+// bareW keeps what it is handed and nothing else.
+type bareW struct{ buf []byte }
+
+func (w *bareW) Write(p []byte) (int, error) { w.buf = append(w.buf, p...); return len(p), nil }
 
 func newC03env() (*c03env, error) {
 	e := &c03env{log: mon.NewLog(), lvlS: map[string]bool{}}
@@ -267,6 +273,14 @@ func newC03env() (*c03env, error) {
 	w7.Core().Fail = func(int, []byte) (bool, int) { return true, 0 }
 	e.pool = append(e.pool, w7)
 	e.shape = append(e.shape, "always-failing")
+	// W8, W9: two writers of the same type that look alike (same contents at any time they sit in the same list) and
+	// are told apart by identity only, like two bytes.Buffers
+	for i := 8; i <= 9; i++ {
+		b := &bareW{}
+		e.bare = append(e.bare, b)
+		e.pool = append(e.pool, b)
+		e.shape = append(e.shape, "bare-lookalike")
+	}
 	var err error
 	e.fds, err = captureFds()
 	if err != nil {
@@ -280,6 +294,12 @@ func newC03env() (*c03env, error) {
 	_ = slog.RegisterLevel(lvlCustErrNeg, "custerrneg", slog.RegWithTreatedAsLevel(slog.WarnLevel), slog.RegWithPrintToErrorDevice(true))
 	_ = slog.RegisterLevel(lvlCustErrInfo, "custerrinfo", slog.RegWithTreatedAsLevel(slog.InfoLevel), slog.RegWithPrintToErrorDevice(true))
 	_ = slog.RegisterLevel(lvlCustPlain65, "custplain65", slog.RegWithTreatedAsLevel(slog.InfoLevel))
+	// registrations that are REFUSED (value or title in use), each asking for the error device: they leave no trace
+	_ = slog.RegisterLevel(slog.InfoLevel, "info-again", slog.RegWithPrintToErrorDevice(true))
+	_ = slog.RegisterLevel(slog.DebugLevel, "debug-again", slog.RegWithPrintToErrorDevice(true), slog.RegWithTreatedAsLevel(slog.ErrorLevel))
+	_ = slog.RegisterLevel(lvlCustPlain, "custplain-again", slog.RegWithPrintToErrorDevice(true))
+	_ = slog.RegisterLevel(slog.Level(88), "custerr", slog.RegWithPrintToErrorDevice(true)) // title taken: 88 stays unregistered
+	_ = slog.RegisterLevel(slog.Level(89), "warning", slog.RegWithPrintToErrorDevice(true)) // title of a built-in level
 	slog.AddFlags(slog.LnoInterrupt)
 	slog.RemoveFlags(slog.Lcaller)
 	return e, nil
@@ -313,6 +333,12 @@ func (e *c03env) applyMethod(l *slog.Entry, o wop) {
 		l.ResetLevelWriter(o.lvl)
 	case "ResetLevelWriters":
 		l.ResetLevelWriters()
+	case "pkg.Reset":
+		// the package-level Reset() restores level and flags; it is not a writer operation
+		slog.Reset()
+		slog.AddFlags(slog.LnoInterrupt)
+		slog.RemoveFlags(slog.Lcaller)
+		l.SetLevel(slog.AlwaysLevel)
 	case "CloseAnotherLogger":
 		// Close on ANOTHER logger that was never given writers (it resolves to the package defaults): this logger, and
 		// the package defaults it may fall back to, keep working
@@ -396,7 +422,7 @@ var c03forms = func() []c03form {
 }()
 
 var probeSevs = []slog.Level{slog.InfoLevel, slog.ErrorLevel, slog.DebugLevel, slog.WarnLevel, slog.TraceLevel, slog.PanicLevel, slog.AlwaysLevel, slog.FatalLevel,
-	slog.OKLevel, slog.FailLevel, slog.SuccessLevel, lvlCustErr, lvlCustPlain, lvlCustGated, slog.Level(88), lvlCustErrBig, lvlCustErr64, lvlCustErrNeg, lvlCustErrInfo, lvlCustPlain65}
+	slog.OKLevel, slog.FailLevel, slog.SuccessLevel, lvlCustErr, lvlCustPlain, lvlCustGated, slog.Level(88), slog.Level(89), lvlCustErrBig, lvlCustErr64, lvlCustErrNeg, lvlCustErrInfo, lvlCustPlain65}
 
 type c03viol struct{ clause, detail string }
 
@@ -415,6 +441,11 @@ func (e *c03env) runSeq(kind string, viaOpts bool, ops []wop, rp func(k string, 
 			return parent.New(append([]any{name}, opts...)...)
 		case "entry":
 			return slog.New(append([]any{name}, opts...)...).Root()
+		case "default":
+			// the logger under test is also the one the package-level functions use
+			l := slog.New(append([]any{name}, opts...)...).Root()
+			slog.SetDefault(l)
+			return l
 		}
 		return slog.New(append([]any{name}, opts...)...).Root()
 	}
@@ -503,6 +534,12 @@ func (e *c03env) probeAll(lg *slog.Entry, model *wmodel, rp func(k string, n int
 		got[wSTDERR] = cnt(b2)
 		if b6 := e.fds.tail(e.file6, m6); len(b6) > 0 {
 			got["W6"] = cnt(b6)
+		}
+		for i, b := range e.bare {
+			if len(b.buf) > 0 {
+				got[fmt.Sprintf("W%d", 8+i)] = cnt(b.buf)
+				b.buf = b.buf[:0]
+			}
 		}
 		rp("write_events", int64(len(evs)))
 		rp("fallback_bytes", int64(len(b1)+len(b2)))
@@ -635,7 +672,7 @@ func c03alphabet(full bool) []wop {
 	ws := []int{0, 1, 2, 6}
 	lvls := []slog.Level{slog.InfoLevel, slog.ErrorLevel}
 	if full {
-		ws = []int{0, 1, 2, 3, 4, 5, 6, 7}
+		ws = []int{0, 1, 2, 3, 4, 5, 6, 7, 8, 9}
 		lvls = []slog.Level{slog.InfoLevel, slog.ErrorLevel, slog.DebugLevel, slog.AlwaysLevel, slog.FailLevel, lvlCustErr, lvlCustPlain, slog.Level(88)}
 	}
 	for _, n := range []string{"SetWriter", "AddWriter", "RemoveWriter", "SetErrorWriter", "AddErrorWriter", "RemoveErrorWriter"} {
@@ -655,7 +692,7 @@ func c03alphabet(full bool) []wop {
 		}
 	}
 	if full {
-		a = append(a, wop{name: "CloseAnotherLogger", w: 0}, wop{name: "CloseAnotherLogger", w: 1})
+		a = append(a, wop{name: "CloseAnotherLogger", w: 0}, wop{name: "CloseAnotherLogger", w: 1}, wop{name: "pkg.Reset", w: -1}, wop{name: "pkg.Reset", w: -1})
 		for _, n := range []string{"DeriveWithWriter", "DeriveWithErrorWriter"} {
 			for _, w := range []int{0, 1, 2, 3, 4} {
 				a = append(a, wop{name: n, w: w})
@@ -713,6 +750,8 @@ func c03exhaustive(c *Ctx) {
 	})
 }
 
+var c03savedDefault = slog.Default()
+
 func c03random(c *Ctx) {
 	e, err := newC03env()
 	if err != nil {
@@ -726,7 +765,8 @@ func c03random(c *Ctx) {
 		for i := 0; i < n; i++ {
 			ops = append(ops, gen.Pick(r, alpha))
 		}
-		kind := gen.Pick(r, []string{"root", "child", "entry"})
+		kind := gen.Pick(r, []string{"root", "child", "entry", "default"})
+		defer slog.SetDefault(c03savedDefault)
 		via := r.P(30) && allOptable(e, ops)
 		e.judge(c, idx, kind, via, ops)
 	})
